@@ -1,0 +1,34 @@
+//go:build verif
+// +build verif
+
+package server
+
+import "net"
+
+// Verification hooks (build tag `verif` only): they let an external harness run the real
+// accept loops and handlers over injected in-memory listeners. No production code path
+// references them.
+
+// VerifServe runs the real accept loop of a SocketServer (also used by DnsServer, which
+// embeds it) over the given listener until the listener fails or Shutdown is called.
+func (st *SocketServer) VerifServe(l net.Listener, channels Channels, secure bool) {
+	st.listener = l
+	st.upstreams = channels
+	st.secure = secure
+	st.acceptConnection()
+}
+
+// VerifSecure reports the transport-security flag Startup computed from the address scheme.
+func (st *SocketServer) VerifSecure() bool { return st.secure }
+
+// VerifSetSecure sets the flag HttpServer.Startup derives from the scheme, so that
+// EndpointHandler can be served by the harness over an in-memory (TLS) listener.
+func (ws *HttpServer) VerifSetSecure(secure bool) { ws.secure = secure }
+
+// VerifSecure reports the transport-security flag Startup computed from the address scheme.
+func (ws *HttpServer) VerifSecure() bool { return ws.secure }
+
+// VerifUpstreams exposes the channel list an endpoint kept after Startup applied its allow-list.
+func (st *SocketServer) VerifUpstreams() Channels { return st.upstreams }
+func (st *PacketServer) VerifUpstreams() Channels { return st.upstreams }
+func (st *IoServer) VerifUpstreams() Channels     { return st.upstreams }
